@@ -708,6 +708,8 @@ class _LGen:
         if k == "block":
             self.nblocks += 1
             bname = "b%d" % (self.nblocks + 10)
+            if self.rich and self.chance(1, 2):  # C30 only: unusual but valid block names (unique through the number)
+                bname = self.pick(G.IDENT_CLASSES["unicode"] + G.IDENT_CLASSES["pykeyword"][:8] + G.IDENT_CLASSES["dunder"][:4]) + "%d" % (self.nblocks + 10)
             mods = " scoped" if self.chance(1, 2) else ""
             # break/continue inside a block nested in a loop compile to a raw SyntaxError (block = own function):
             # that is C01's business (reported to the coordinator), not generated here
